@@ -5,14 +5,22 @@ strides the accepted tensor reports) and, for mutable storage, the layout is inj
 View operations / indexing / mutable references (Trace_Chains.tla over the LayoutOps transcription): every view's
 storage window lies inside the root storage and covers every valid index; every value returned by get()/[]/weak
 indexing lies inside the view's storage; `&mut` references alive at once are pairwise distinct and inside.
+Growth of owned tensors in place (Trace_Grow.tla; Construct.AcceptGrowW transcribes expanded_layout): has_capacity /
+append / with_capacity+append / concat build a new layout over an existing Vec: an accepted grown layout and the layout
+of the appended result must be injective (decided in TLA+ over Word limbs), the result's extent must lie inside its
+storage, and the `&mut` handed out at once by iter_mut / axis_iter_mut / lanes_mut on the result must be distinct.
 
 1. TLC (MC_Construct): acceptance tests in exact arithmetic imply Safe/Injective on a small exhaustive space,
    a K-bit usize model counts wrap-around acceptances (candidates), a 64-bit corner grid is emitted, and chains of
    <= Depth view operations preserve in-bounds / window / mutable injectivity / split disjointness.
 2. spec -> impl: vh-tensor construct offers every vector to every safe constructor (release build) and records
    outcome + shape()/strides()/len()/storage length only (never dereferences).
+   vh-tensor grow takes the same layouts (plus variants with tied / huge strides on their size-0 and size-1 axes),
+   builds owned tensors by from_data_with_strides (Vec capacity below / at / above the grown extent), from_data with
+   spare capacity and with_capacity + append, grows EVERY axis by 1 and 2, and records has_capacity, append, the
+   result layout and the live `&mut` address sets; concat along every axis likewise.
    impl -> spec: vh-tensor chains runs seeded chains on marker tensors (storage element k holds k).
-3. Trace_Construct / Trace_Chains judge the traces; disagreements with the transcription that do not break the
+3. Trace_Construct / Trace_Grow / Trace_Chains judge the traces; disagreements with the transcription that do not break the
    contract are DRIFT."""
 import concurrent.futures
 import json
@@ -82,6 +90,22 @@ def construct_part(ctx, vec_files, jobs):
     return run_jobs(jobs, one, vec_files)
 
 
+def grow_part(ctx, vec_files, jobs):
+    def one(i_f):
+        i, f = i_f
+        time.sleep(0.43 * i + 0.1)
+        trace = ctx.path("grow_%d.ndjson" % i)
+        cur = ctx.path("current_g%d.json" % i)
+        try:
+            ctx.harness("vh-tensor", ["grow", "--vectors", f, "--out", trace], env={"VERIF_CURRENT": cur})
+        except vlib.ToolError as ex:
+            last = open(cur).read()[:400] if os.path.exists(cur) else "?"
+            raise vlib.ToolError("%s; layout being grown: %s" % (ex, last))
+        res = ctx.tlc_trace("tensor/Trace_Grow", "tensor/Trace_Grow.cfg", trace, timeout=3000, heap="4g")
+        return trace, res
+    return run_jobs(jobs, one, vec_files)
+
+
 def chains_part(ctx, nchunks, views, muts, jobs, only=None):
     ctx.cov["chain_params"] = [views, muts]
     def one(i_x):
@@ -141,11 +165,22 @@ def run(ctx):
         ctx.cov["replayed_" + c] = len(by[c])
     jobs = 4
     cres = construct_part(ctx, split_lines(lines, jobs if q else 8, ctx, "vchunk"), jobs)
+    # growth of owned tensors: every small layout of rank <= 2, a seeded sample of rank 3
+    small_all = [x for x in open(vec).read().splitlines() if json.loads(x)["class"] == "small"]
+    low = [x for x in small_all if 1 <= len(json.loads(x)["shapeW"]) <= 2]
+    hi = [x for x in small_all if len(json.loads(x)["shapeW"]) == 3]
+    nhi = 150 if q else 3000
+    if len(hi) > nhi:
+        hi = rnd.sample(hi, nhi)
+    glines = low + hi
+    rnd.shuffle(glines)
+    ctx.cov["grow_source_layouts"] = len(glines)
+    gres = grow_part(ctx, split_lines(glines, jobs if q else 8, ctx, "gchunk"), jobs)
     hres = chains_part(ctx, jobs if q else 8, 250 if q else 4000, 250 if q else 4000, jobs)
-    finish(ctx, cres, hres)
+    finish(ctx, cres, hres, gres)
 
 
-def finish(ctx, cres, hres):
+def finish(ctx, cres, hres, gres=()):
     merged = {}
     drift_sigs = {}
     drift_first = {}
@@ -185,6 +220,24 @@ def finish(ctx, cres, hres):
         add_bad(res)
         for k in ("runs", "accepted", "safe_count_overflow"):
             ctx.cov["constructor_" + k] = ctx.cov.get("constructor_" + k, 0) + res["stats"].get(k, 0)
+    for trace, res in gres:
+        with open(trace) as f:
+            for line in f:
+                r = json.loads(line)
+                total += 1
+                for g in r["grows"]:
+                    key = json.dumps(["g", g["route"], g["shapeW"], g["stridesW"], g["axis"], g["extra"], g["cap"]])
+                    if key in seen:
+                        continue
+                    seen.add(key)
+                    # non-trivial: the growth was accepted and live &mut were collected on the result
+                    if g["append"] == "ok" and len(g["iter_mut"]) >= 2:
+                        dnt += 1
+                        if dnt % 499 == 3:
+                            ctx.add_samples([{"grow": {k: g[k] for k in ("route", "shapeW", "stridesW", "axis", "extra", "cap", "has", "append", "rshapeW", "rstridesW")}}])
+        add_bad(res)
+        for k in ("grows", "appended", "mut_sets"):
+            ctx.cov["grow_" + k] = ctx.cov.get("grow_" + k, 0) + res["stats"].get(k, 0)
     for trace, res in hres:
         cur = None
         with open(trace) as f:
@@ -215,10 +268,11 @@ def finish(ctx, cres, hres):
     ctx.cov["distinct_nontrivial"] = dnt
     ctx.cov["traces_validated_against_impl"] = total
     ctx.finish(
-        rule="cases = constructor test vectors (shape, strides, storage lengths; each offered to 8-19 constructors) + seeded marker-tensor "
+        rule="cases = constructor test vectors (shape, strides, storage lengths; each offered to 8-19 constructors) + growth source layouts "
+             "(each grown along every axis by 1 and 2, 3 capacities, 2-4 construction routes, stride variants on size<=1 axes) + seeded marker-tensor "
              "chains (view chains with get/[]/weak reads after every op; mutable chains ending in one way of holding many &mut). "
              "distinct by vector / by (kind, shape, op sequence with outcomes); non-trivial = a constructor accepted a tensor with >= 2 "
-             "elements / the chain has >= 2 successful operations",
+             "elements / an accepted growth whose result handed out >= 2 live &mut / the chain has >= 2 successful operations",
         assumptions=["offsets are judged in exact arithmetic on the strides the accepted tensor reports",
                      "chains: shape()/strides()/data_ptr()/storage length describe the view (observation instruments); "
                      "a view whose layout exceeds its storage window is flagged and not read through",
@@ -230,7 +284,13 @@ def finish(ctx, cres, hres):
 def replay(ctx):
     rp = ctx.replay
     rec = rp["record"]
-    if "run" in rec:  # constructor vector
+    if "grow" in rec:  # growth of an owned tensor: re-run the source layout
+        g = rec["grow"]
+        f = ctx.path("replay.jsonl")
+        with open(f, "w") as fh:
+            fh.write(json.dumps({"class": "small", "shapeW": g["shapeW"], "stridesW": g["stridesW"], "lens": []}) + "\n")
+        finish(ctx, [], [], grow_part(ctx, [f], 1))
+    elif "run" in rec:  # constructor vector
         case = rec["case"]
         f = ctx.path("replay.jsonl")
         with open(f, "w") as fh:
